@@ -1421,11 +1421,19 @@ static void DecodeADD(Word Index) {
                         memcpy(BAsmCode + 2, AdrVals, AdrCnt);
                         CodeLen = 2 + AdrCnt;
                         break;
-                    case 1:
-                        BAsmCode[0] = 0x27;
-                        BAsmCode[1] = 0 [AdrVals];
-                        CodeLen     = 2;
+                    case 1: {
+                        /* d is a signed displacement: +128..+255 cannot be
+                           encoded (they would subtract) */
+
+                        Boolean OK;
+
+                        BAsmCode[1] = EvalStrIntExpression(&ArgStr[2], SInt8, &OK);
+                        if (OK) {
+                            BAsmCode[0] = 0x27;
+                            CodeLen     = 2;
+                        }
                         break;
+                    }
                     }
                     break;
                 default:
